@@ -141,7 +141,7 @@ class MinPathCoverCycles(walkmodel.AbstractWalkModelDiGraph):
 
         self.solve_time_start = time.perf_counter()
         
-        for i in range(self.get_lowerbound_k(), self.G.number_of_edges()):
+        for i in range(self.get_lowerbound_k(), self.G.number_of_edges() + 1):  # the optimum can be as large as the number of edges
             utils.logger.info(f"{__name__}: iteration with k = {i}")
 
             i_solver_options = copy.deepcopy(self.solver_options)
